@@ -57,7 +57,7 @@ def main():
                 viol = [l for l in out.splitlines() if l.startswith("VIOLATION")]
                 det[c] = {"exit": rc, "violations": len(viol), "first": viol[:1], "tail": out.splitlines()[-1:] }
         finally:
-            sh("git -C /repo checkout -- .", "/repo")
+            sh("git -C /repo checkout -- . && git -C /repo clean -fdq", "/repo")
         meta["ran"].append("git -C /repo apply patch.diff; " + "; ".join("./check %s quick" % c for c in checks) + "; git -C /repo checkout -- .")
     old = {}
     try:
